@@ -1,15 +1,16 @@
 #!/bin/bash
-# Confirms every seeded change under /verif/seeded/<id>/ in a scratch worktree of /repo:
+# Confirms every seeded change under $VERIF/seeded/<id>/ in a scratch worktree of $REPO:
 #   patch applies; the repository's own suite passes with it; the demonstration fails with it and
-#   passes without it. Then runs the claimed check against it (patch applied to /repo, reverted
+#   passes without it. Then runs the claimed check against it (patch applied to $REPO, reverted
 #   straight afterwards) unless NO_CHECK=1. Writes seeded/<id>/verify.txt. Usage: verify_seeded.sh [id-substring]
 set -u
+REPO="${REPO:-/repo}"; VERIF="${VERIF:-/verif}"; export VERIF_REPO="$REPO"
 filter="${1:-}"
-W=/tmp/seed-verify
-cd /repo || exit 2
+W=/tmp/seed-verify-$$
+cd $REPO || exit 2
 git worktree remove --force $W 2>/dev/null; git worktree prune
 git worktree add -q --detach $W HEAD || exit 2
-for d in /verif/seeded/*/; do
+for d in $VERIF/seeded/*/; do
   id=$(basename "$d")
   case "$id" in *"$filter"*) ;; *) continue;; esac
   [ -f "$d/patch.diff" ] || continue
@@ -17,23 +18,23 @@ for d in /verif/seeded/*/; do
   out="$d/verify.txt"; : > "$out"
   cd $W && git checkout -q -- . && git clean -qfd tests examples 2>/dev/null
   if ! git apply "$d/patch.diff" 2>>"$out"; then echo "$id: PATCH DOES NOT APPLY" | tee -a "$out"; continue; fi
-  if cargo test --workspace --no-fail-fast --offline >/tmp/sv.log 2>&1; then suite="suite passes with patch"; else suite="SUITE FAILS WITH PATCH"; fi
+  if cargo test --workspace --no-fail-fast --offline >/tmp/sv$$.log 2>&1; then suite="suite passes with patch"; else suite="SUITE FAILS WITH PATCH"; fi
   cp "$d/demo.rs" tests/seeded_demo.rs
-  if cargo test --offline --test seeded_demo >/tmp/sv-demo1.log 2>&1; then with="DEMO PASSES WITH PATCH (bad)"; else with="demo fails with patch"; fi
+  if cargo test --offline --test seeded_demo >/tmp/sv$$-demo1.log 2>&1; then with="DEMO PASSES WITH PATCH (bad)"; else with="demo fails with patch"; fi
   git apply -R "$d/patch.diff"
-  if cargo test --offline --test seeded_demo >/tmp/sv-demo2.log 2>&1; then without="demo passes without patch"; else without="DEMO FAILS WITHOUT PATCH (bad)"; fi
+  if cargo test --offline --test seeded_demo >/tmp/sv$$-demo2.log 2>&1; then without="demo passes without patch"; else without="DEMO FAILS WITHOUT PATCH (bad)"; fi
   rm -f tests/seeded_demo.rs
   echo "$id: $suite; $with; $without" | tee -a "$out"
   if [ "${NO_CHECK:-0}" != 1 ]; then
-    cd /verif
-    if git -C /repo diff --quiet && git -C /repo apply "$d/patch.diff"; then
-      VERIF_OUT=/tmp/verif-seeded-out ./check "$prop" quick >/tmp/sv-check.log 2>&1; rc=$?
-      git -C /repo checkout -- . ; git -C /repo clean -fdq -- src parser macros tests docs
-      echo "$id: ./check $prop quick -> exit $rc :: $(grep -c '^VIOLATION' /tmp/sv-check.log) violation line(s); first: $(grep -m1 'class=' /tmp/sv-check.log | cut -c1-300)" | tee -a "$out"
+    cd $VERIF
+    if git -C $REPO diff --quiet && git -C $REPO apply "$d/patch.diff"; then
+      VERIF_OUT=/tmp/verif-seeded-out$$ ./check "$prop" quick >/tmp/sv$$-check.log 2>&1; rc=$?
+      git -C $REPO checkout -- . ; git -C $REPO clean -fdq -- src parser macros tests docs
+      echo "$id: ./check $prop quick -> exit $rc :: $(grep -c '^VIOLATION' /tmp/sv$$-check.log) violation line(s); first: $(grep -m1 'class=' /tmp/sv$$-check.log | cut -c1-300)" | tee -a "$out"
     else
-      echo "$id: could not apply to /repo (dirty?)" | tee -a "$out"
+      echo "$id: could not apply to $REPO (dirty?)" | tee -a "$out"
     fi
   fi
 done
-cd /repo && git worktree remove --force $W; git worktree prune
-rm -rf /tmp/verif-seeded-out /tmp/sv.log /tmp/sv-demo1.log /tmp/sv-demo2.log
+cd $REPO && git worktree remove --force $W; git worktree prune
+rm -rf /tmp/verif-seeded-out$$ /tmp/sv$$.log /tmp/sv$$-demo1.log /tmp/sv$$-demo2.log
